@@ -226,6 +226,17 @@ def mk(rng, kind, n=3, nterms=3):
         if not any(k for k in d):
             d[(0,)] = 1
     obj = dict(d) if kind.startswith("dict") else cls_of(kind)(d)
+    if SHAPE[0] == "stale" and not kind.startswith("dict"):
+        # a model object whose highest-labelled variable cancelled after construction: the cached `variables`,
+        # `num_binary_variables`, mapping / max_index are now upper bounds (a legal state, C14) — a callee must not "repair"
+        # the caller's object (e.g. by refresh()) any more than it may change its terms
+        labs = sorted({i for k in obj for i in k})
+        if labs:
+            top = labs[-1]
+            for k in [k for k in list(obj) if top in k]:
+                obj[k] -= obj[k]
+            if not any(k for k in obj):
+                obj[(labs[0],)] += 1
     return obj
 
 def unchanged_calls(rng):
@@ -341,7 +352,7 @@ def imul(x, y):
     x *= y; return x
 
 def unchanged(ctx):
-    for shape in ("normal", "offset", "empty", "zeroconst", "onlyzero"):
+    for shape in ("normal", "offset", "empty", "zeroconst", "onlyzero", "stale"):
         SHAPE[0] = shape
         _unchanged_shape(ctx, shape)
     SHAPE[0] = "normal"
